@@ -59,26 +59,27 @@ type Interp struct {
 	decisions []int
 	newWork   [][]int
 
-	steps      int
-	MaxSteps   int
-	pc         []*Term
-	tape       []TapeEvent
-	cur        *frame
-	depth      int
-	cfg        *Config
-	res        *PathResult
-	watch      map[*Value]string // write-monitored slots (C13)
-	watchOn    bool
-	locks      map[*Value]*lockState
-	mon        *lockMonitor
-	unknownFz  int
-	funcsSeen  map[*ssa.Function]bool
-	fmtTypes   map[string]types.Type
-	sched      *scheduler
-	allocBound int // upper bound for MakeSlice obligations (-1: off)
-	obs        []obsRec
-	enumHits   int
-	feasHint   func(i int) (bool, bool)
+	steps          int
+	MaxSteps       int
+	pc             []*Term
+	tape           []TapeEvent
+	cur            *frame
+	depth          int
+	cfg            *Config
+	res            *PathResult
+	watch          map[*Value]string // write-monitored slots (C13)
+	watchOn        bool
+	globalsWatched bool
+	locks          map[*Value]*lockState
+	mon            *lockMonitor
+	unknownFz      int
+	funcsSeen      map[*ssa.Function]bool
+	fmtTypes       map[string]types.Type
+	sched          *scheduler
+	allocBound     int // upper bound for MakeSlice obligations (-1: off)
+	obs            []obsRec
+	enumHits       int
+	feasHint       func(i int) (bool, bool)
 }
 
 func (in *Interp) unsupported(msg string) *Inconclusive {
@@ -1761,7 +1762,7 @@ func (in *Interp) typeAssert(x *ssa.TypeAssert, v Iface) Value {
 
 // hooks filled by monitor.go
 func (in *Interp) onWrite(p *Value) {
-	if in.watchOn {
+	if in.watchOn && in.initing == 0 {
 		if tag, ok := in.watch[p]; ok {
 			in.res.addViolationRaw("input-write", "write to input object ("+tag+") at "+in.posString())
 		}
